@@ -346,6 +346,52 @@ func (s *Stream) confuse(m pcommon.Map) {
 	k := rapid.SampledFrom(keys).Draw(s.T, "ck")
 	v, _ := m.Get(k)
 	s.Stats["confusion_mutations"]++
+	if rapid.IntRange(0, 3).Draw(s.T, "cnear") == 0 {
+		// near-identical value of the SAME type: differs below the precision
+		// or in a way a lossy rendering would hide
+		switch v.Type() {
+		case pcommon.ValueTypeDouble:
+			d := v.Double()
+			switch rapid.IntRange(0, 2).Draw(s.T, "cnd") {
+			case 0:
+				v.SetDouble(math.Nextafter(d, math.Inf(1)))
+			case 1:
+				v.SetDouble(float64(float32(d)))
+			default:
+				v.SetDouble(d * (1 + 1e-12))
+			}
+		case pcommon.ValueTypeInt:
+			i := v.Int()
+			switch rapid.IntRange(0, 2).Draw(s.T, "cni") {
+			case 0:
+				v.SetInt(int64(float64(i)))
+			case 1:
+				v.SetInt(i ^ 1)
+			default:
+				v.SetInt(-i)
+			}
+		case pcommon.ValueTypeStr:
+			str := v.Str()
+			switch rapid.IntRange(0, 3).Draw(s.T, "cns") {
+			case 0:
+				v.SetStr(str + " ")
+			case 1:
+				v.SetStr(str + "\x00")
+			case 2:
+				v.SetStr(strings.ToUpper(str))
+			default:
+				v.SetStr(" " + str)
+			}
+		case pcommon.ValueTypeBytes:
+			v.SetEmptyBytes().FromRaw(append(v.Bytes().AsRaw(), 0))
+		case pcommon.ValueTypeBool:
+			v.SetBool(!v.Bool())
+		default:
+			v.SetDouble(0.30000000000000004)
+		}
+		s.Stats["near_identical_mutations"]++
+		return
+	}
 	switch rapid.IntRange(0, 9).Draw(s.T, "cm") {
 	case 0: // same printed form, other type
 		switch v.Type() {
